@@ -97,110 +97,7 @@ func runC18(c *Ctx) {
 		c.Violate("R18.2", "expected:order-edges", "module", fmt.Sprintf("only %d lock-order edges found (reference ≥ 20): the order graph is not being built", len(edges)))
 	}
 
-	// R18.3
-	for _, name := range []struct{ typ, m string }{{"SubCache", "Resolve"}, {"SubCache", "add"}, {"RepoCacheIdentity", "finishIdentity"}} {
-		fn := w.Method("cache", name.typ, name.m)
-		key := "cache." + name.typ + "." + name.m + ":check-and-insert"
-		if fn == nil {
-			c.Undecided("R18.3", "anchor:"+key, "cache", "not found")
-			continue
-		}
-		li := lw.info(fn)
-		found := false
-		for _, b := range fn.Blocks {
-			for _, ins := range b.Instrs {
-				mu, ok := ins.(*ssa.MapUpdate)
-				if !ok {
-					continue
-				}
-				base, fld, isF := loadOfField(mu.Map)
-				if !isF || fld != "cached" {
-					continue
-				}
-				found = true
-				c.Sites++
-				mkey := valueKey(base) + ".mu"
-				if !li.holds(mu, mkey, true) {
-					c.Violate("R18.3", key, w.InstrPos(mu), "the loaded set is written without holding "+mkey+" for writing")
-					continue
-				}
-				// a comma-ok lookup of the same map whose not-found edge controls the insertion, with the write lock held continuously from the test to the insertion
-				ok2 := false
-				for _, cc := range controlConds(mu.Block(), nil) {
-					ex, isEx := cc.If.Cond.(*ssa.Extract)
-					if !isEx || ex.Index != 1 {
-						continue
-					}
-					lk, isLk := ex.Tuple.(*ssa.Lookup)
-					if !isLk {
-						continue
-					}
-					if _, f2, isF2 := loadOfField(lk.X); !isF2 || f2 != "cached" {
-						continue
-					}
-					if cc.Edge != 1 {
-						continue
-					}
-					if !li.holds(lk, mkey, true) {
-						continue
-					}
-					// no release between the test and the insertion
-					released, _, _ := pathSearch(fn, lk, nil, func(i ssa.Instruction) bool { return i == ssa.Instruction(mu) }, nil, false)
-					if !released {
-						continue
-					}
-					unlockBetween := false
-					for _, cl := range Calls(fn) {
-						if op, isOp := asLockOp(cl.Instr.Common()); isOp && op.Delta < 0 && op.Key == mkey {
-							if _, isDefer := cl.Instr.(*ssa.Defer); isDefer {
-								continue
-							}
-							a, _, _ := pathSearch(fn, lk, nil, func(i ssa.Instruction) bool { return i == cl.Instr }, func(i ssa.Instruction) bool { return i == ssa.Instruction(mu) }, false)
-							b2, _, _ := pathSearch(fn, cl.Instr, nil, func(i ssa.Instruction) bool { return i == ssa.Instruction(mu) }, nil, false)
-							if a && b2 {
-								unlockBetween = true
-							}
-						}
-					}
-					if !unlockBetween {
-						ok2 = true
-					}
-				}
-				c.Check(ok2, "R18.3", key, w.InstrPos(mu), "presence is tested and the instance inserted within one write-locked region", "a freshly built instance is stored without re-checking, under the same lock hold, that the entity is not loaded yet: two goroutines can obtain two instances of one entity and overwrite each other's commits")
-			}
-		}
-		if !found {
-			c.Violate("R18.3", key, w.FnPos(fn), "expected insertion into the loaded set not found")
-		}
-	}
-
-	// R18.3b: when the entity is found loaded, that very instance is handed out
-	if fn := w.Method("cache", "SubCache", "Resolve"); fn != nil {
-		for _, r := range Returns(fn) {
-			if returnKind(r) == RetError {
-				continue
-			}
-			for _, cc := range controlConds(r.Block(), nil) {
-				ex, isEx := cc.If.Cond.(*ssa.Extract)
-				if !isEx || ex.Index != 1 || cc.Edge != 0 {
-					continue
-				}
-				lk, isLk := ex.Tuple.(*ssa.Lookup)
-				if !isLk {
-					continue
-				}
-				if _, fld, isF := loadOfField(lk.X); !isF || fld != "cached" {
-					continue
-				}
-				c.Sites++
-				ok := false
-				if e0, isE := stripConv(r.Results[0]).(*ssa.Extract); isE && e0.Tuple == ssa.Value(lk) && e0.Index == 0 {
-					ok = true
-				}
-				c.Check(ok, "R18.3", "cache.SubCache.Resolve:loaded-instance-returned", w.InstrPos(r), "the instance found in the loaded set is the one returned", "the entity is found loaded but a different instance is returned: two live instances of one entity, whose commits overwrite each other")
-			}
-		}
-	}
+	checkSingleInstance(c, lw)
 	// R18.6: an excerpt is computed and stored within one write-locked region
 	c.Doc("R18.6", "the value stored into SubCache.excerpts is computed (makeExcerpt) while the write lock that protects the store is already held, without release in between")
 	for _, fn := range fns {
@@ -435,6 +332,117 @@ func checkLRUAndWriteSection(c *Ctx, lw *lockWorld) {
 			}
 		} else {
 			c.Undecided("R18.9", "anchor:cache.lruIdCache", "cache", "type not found")
+		}
+	}
+}
+
+// checkSingleInstance (R18.3): one loaded instance per entity. Shared with C11: two instances of one
+// bug refresh the excerpt from whichever was registered last, so the cache diverges from the git data.
+func checkSingleInstance(c *Ctx, lw *lockWorld) {
+	w := c.W
+	c.Doc("R18.3", "insertion of a new instance into SubCache.cached happens in the write-locked region that also tested for its absence; an entity found loaded is handed out as that very instance")
+	// R18.3
+	for _, name := range []struct{ typ, m string }{{"SubCache", "Resolve"}, {"SubCache", "add"}, {"RepoCacheIdentity", "finishIdentity"}} {
+		fn := w.Method("cache", name.typ, name.m)
+		key := "cache." + name.typ + "." + name.m + ":check-and-insert"
+		if fn == nil {
+			c.Undecided("R18.3", "anchor:"+key, "cache", "not found")
+			continue
+		}
+		li := lw.info(fn)
+		found := false
+		for _, b := range fn.Blocks {
+			for _, ins := range b.Instrs {
+				mu, ok := ins.(*ssa.MapUpdate)
+				if !ok {
+					continue
+				}
+				base, fld, isF := loadOfField(mu.Map)
+				if !isF || fld != "cached" {
+					continue
+				}
+				found = true
+				c.Sites++
+				mkey := valueKey(base) + ".mu"
+				if !li.holds(mu, mkey, true) {
+					c.Violate("R18.3", key, w.InstrPos(mu), "the loaded set is written without holding "+mkey+" for writing")
+					continue
+				}
+				// a comma-ok lookup of the same map whose not-found edge controls the insertion, with the write lock held continuously from the test to the insertion
+				ok2 := false
+				for _, cc := range controlConds(mu.Block(), nil) {
+					ex, isEx := cc.If.Cond.(*ssa.Extract)
+					if !isEx || ex.Index != 1 {
+						continue
+					}
+					lk, isLk := ex.Tuple.(*ssa.Lookup)
+					if !isLk {
+						continue
+					}
+					if _, f2, isF2 := loadOfField(lk.X); !isF2 || f2 != "cached" {
+						continue
+					}
+					if cc.Edge != 1 {
+						continue
+					}
+					if !li.holds(lk, mkey, true) {
+						continue
+					}
+					// no release between the test and the insertion
+					released, _, _ := pathSearch(fn, lk, nil, func(i ssa.Instruction) bool { return i == ssa.Instruction(mu) }, nil, false)
+					if !released {
+						continue
+					}
+					unlockBetween := false
+					for _, cl := range Calls(fn) {
+						if op, isOp := asLockOp(cl.Instr.Common()); isOp && op.Delta < 0 && op.Key == mkey {
+							if _, isDefer := cl.Instr.(*ssa.Defer); isDefer {
+								continue
+							}
+							a, _, _ := pathSearch(fn, lk, nil, func(i ssa.Instruction) bool { return i == cl.Instr }, func(i ssa.Instruction) bool { return i == ssa.Instruction(mu) }, false)
+							b2, _, _ := pathSearch(fn, cl.Instr, nil, func(i ssa.Instruction) bool { return i == ssa.Instruction(mu) }, nil, false)
+							if a && b2 {
+								unlockBetween = true
+							}
+						}
+					}
+					if !unlockBetween {
+						ok2 = true
+					}
+				}
+				c.Check(ok2, "R18.3", key, w.InstrPos(mu), "presence is tested and the instance inserted within one write-locked region", "a freshly built instance is stored without re-checking, under the same lock hold, that the entity is not loaded yet: two goroutines can obtain two instances of one entity and overwrite each other's commits")
+			}
+		}
+		if !found {
+			c.Violate("R18.3", key, w.FnPos(fn), "expected insertion into the loaded set not found")
+		}
+	}
+
+	// R18.3b: when the entity is found loaded, that very instance is handed out
+	if fn := w.Method("cache", "SubCache", "Resolve"); fn != nil {
+		for _, r := range Returns(fn) {
+			if returnKind(r) == RetError {
+				continue
+			}
+			for _, cc := range controlConds(r.Block(), nil) {
+				ex, isEx := cc.If.Cond.(*ssa.Extract)
+				if !isEx || ex.Index != 1 || cc.Edge != 0 {
+					continue
+				}
+				lk, isLk := ex.Tuple.(*ssa.Lookup)
+				if !isLk {
+					continue
+				}
+				if _, fld, isF := loadOfField(lk.X); !isF || fld != "cached" {
+					continue
+				}
+				c.Sites++
+				ok := false
+				if e0, isE := stripConv(r.Results[0]).(*ssa.Extract); isE && e0.Tuple == ssa.Value(lk) && e0.Index == 0 {
+					ok = true
+				}
+				c.Check(ok, "R18.3", "cache.SubCache.Resolve:loaded-instance-returned", w.InstrPos(r), "the instance found in the loaded set is the one returned", "the entity is found loaded but a different instance is returned: two live instances of one entity, whose commits overwrite each other")
+			}
 		}
 	}
 }
